@@ -429,6 +429,9 @@ func init() {
 	add("C06", "X5")
 	add("C18", "E7", "R-DEFER", "R-ONCE")
 	add("C20", "K5")
+	registerRule(&RuleDef{ID: "P-NIL-LOOKUP", Min: 1, Doc: "the client's notification handlers dereference a pointer read out of a map only after a presence or nil test", Run: rulePNILLOOKUP})
+	add("C18", "P-NIL-LOOKUP")
+	add("C01", "P-NIL-LOOKUP")
 	add("C01", "ERR-LOOP")
 	add("C03", "X1", "MAX-ONE")
 	add("C04", "MAX-ONE")
